@@ -178,6 +178,8 @@ type tgenOpts struct {
 	// ConstDefaults: some defaults are spelled through identifiers - a constant, a constant defined by another
 	// constant, an enum value, each either in the main file or in an included one
 	ConstDefaults bool
+	// ForceSelf: the root struct gets an optional field of its own type (deep nesting worlds)
+	ForceSelf bool
 	// QueryAnno: some scalar / string fields carry (api.query = "q_<name>") - only meaningful for
 	// converters with EnableHttpMapping
 	QueryAnno bool
@@ -429,6 +431,20 @@ func genSchema(t *simrt.Tape, o tgenOpts) *TSchema {
 	g := &tgen{t: t, o: o, sch: &TSchema{}}
 	root := g.newStruct(o.MaxDepth)
 	g.sch.Root = &TType{Kind: tSTRUCT, St: root}
+	if o.ForceSelf {
+		has, maxID := false, 0
+		for _, f := range root.Fields {
+			if f.T.Kind == tSTRUCT && f.T.St == root && f.Req != reqRequired {
+				has = true
+			}
+			if f.ID > maxID {
+				maxID = f.ID
+			}
+		}
+		if !has && maxID < 32767 {
+			root.Fields = append(root.Fields, &TField{ID: maxID + 1, Name: g.ident("self"), Req: reqOptional, T: &TType{Kind: tSTRUCT, St: root}})
+		}
+	}
 	if len(g.inc) > 0 {
 		g.sch.AddInclude("defs.thrift", "namespace go defs\n\n"+strings.Join(g.inc, "\n")+"\n")
 	}
@@ -522,6 +538,9 @@ type vgenOpts struct {
 	// small whatever the schema's fan-out is; nodes counts what has been generated so far.
 	MaxNodes int
 	nodes    int
+	// DeepSelf: a non-required field of the enclosing struct's own type is present with this probability
+	// (percent) while depth remains - chains of nested structs as deep as Depth
+	DeepSelf int
 }
 
 type vgen struct {
@@ -749,6 +768,9 @@ func (g *vgen) structVal(v *TVal, depth int) {
 		if f.Req == reqRequired && g.o.DropRequiredPct > 0 && g.t.Chance(g.o.DropRequiredPct, 100, "field.dropreq") {
 			present = false
 			g.o.DroppedRequired++
+		}
+		if g.o.DeepSelf > 0 && f.T.Kind == tSTRUCT && f.T.St == st && f.Req != reqRequired {
+			present = g.t.Chance(g.o.DeepSelf, 100, "field.deepself")
 		}
 		if f.T.Kind == tSTRUCT && depth <= 0 && f.Req != reqRequired {
 			present = false // required struct chains are acyclic (self-typed fields are never required), so this terminates
